@@ -16,7 +16,7 @@ HFILES = ["common/common_test.go.tmpl", "flood/flood_net_test.go"]
 # must make the check report a violation, whatever the property)
 SELFTEST = os.environ.get("VERIF_SELFTEST", "")
 INVS = ("TypeOK ProcessedOnce ForwardedOnce MsgBound PathsSimple ChainsSimple PathsValid Converged MetricIsHops "
-        "NearestPreferred Refreshed HopLimit CountFits DecodedIntact")
+        "NearestPreferred Refreshed HopLimit PathIsDistance CountFits DecodedIntact")
 
 # deviation -> (property it breaks, invariant expected to catch it)
 DEV_OWNER = {
@@ -27,6 +27,7 @@ DEV_OWNER = {
     "DevNoSeenMark": "C11",
     "DevForwardLooped": "C11",
     "DevNoPathPrepend": "C12",
+    "DevPathCountWrap": "C15",
 }
 
 A2, A3, A4 = ["a", "b"], ["a", "b", "c"], ["a", "b", "c", "d"]
@@ -66,6 +67,7 @@ def cfg_text(c, dev=(), emit=True, invs=INVS, trace=False):
              " Announcers = " + tla_set(tla_str(a) for a in c["announcers"]),
              " MaxAnn = %d" % c["maxann"],
              " CntMod = %d" % c["cntmod"],
+             " ListMod = %d" % c.get("listmod", 256),
              " MaxConn = %d MaxDisc = %d MaxExpire = %d MaxDup = %d MaxAge = %d" % (c["conn"], c["disc"], c["exp"], c["dup"], c["age"]),
              " Dev = " + tla_set(tla_str(d) for d in dev),
              " Emit = %s" % ("TRUE" if emit else "FALSE")]
@@ -127,6 +129,8 @@ def dev_cfg(d):
                     exits=[[]], routeids=[], announcers=["a"], conn=2)
     if d == "DevNoPathPrepend":
         return base("dev", A3, l3, announcers=["a"])
+    if d == "DevPathCountWrap":
+        return base("dev", A4, L(("a", "b"), ("b", "c"), ("c", "d")), announcers=["a"], listmod=3, hopsset=[2])
     raise KeyError(d)
 
 
@@ -230,14 +234,14 @@ TRACE_CFG = dict(name="trace", agents=["a", "b", "c", "d", "e", "f"],
                  announcers=["a", "b", "c", "d", "e", "f"], maxann=10 ** 9, hopsset=[16], cntmod=256,
                  conn=10 ** 9, disc=10 ** 9, exp=10 ** 9, dup=10 ** 9, age=10 ** 9)
 TRACE_INVS = ("ProcessedOnce ForwardedOnce MsgBound PathsSimple ChainsSimple PathsValid Converged MetricIsHops "
-              "NearestPreferred Refreshed HopLimit CountFits DecodedIntact")
+              "NearestPreferred Refreshed HopLimit PathIsDistance CountFits DecodedIntact")
 DEVS_REAL = ["DevForwardKeepsReceivedMetric", "DevReplayUsesOwnSequence", "DevNoHopCheck", "DevCount8Wrap",
-             "DevForwardLooped"]
+             "DevForwardLooped", "DevPathCountWrap"]
 
 
-def _validate(ctx, tracefile, name, invs, dev):
+def _validate(ctx, tracefile, name, invs, dev, tcfg=None):
     fn = "Trace_%s.cfg" % name
-    text = cfg_text(TRACE_CFG, dev=dev, emit=False, invs=invs, trace=True)
+    text = cfg_text(tcfg or TRACE_CFG, dev=dev, emit=False, invs=invs, trace=True)
     # validate_trace copies spec/ into a scratch directory; the generated cfg must be there too
     e = {"TRACE_FILE": tracefile}
     res = ctx.tlc("TraceFlood", fn, files={fn: text}, workers=1, env=e, expect_violation=True, name=name, timeout=1500,
@@ -274,11 +278,11 @@ def slim(ev):
     return e
 
 
-def explain(ctx, tracefile, name):
+def explain(ctx, tracefile, name, tcfg=None):
     """A rejected trace is re-validated with one deviation enabled at a time."""
     for d in DEVS_REAL:
         try:
-            v = _validate(ctx, tracefile, name + "-" + d, "", [d])
+            v = _validate(ctx, tracefile, name + "-" + d, "", [d], tcfg)
         except vf.Infra:
             continue          # explanation is best effort (TLC can choke on garbage decoded from a wrapped frame)
         if v["accepted"]:
@@ -286,7 +290,8 @@ def explain(ctx, tracefile, name):
     return None
 
 
-def traces(ctx, test, env, name, invs=TRACE_INVS):
+def traces(ctx, test, env, name, invs=TRACE_INVS, tcfg=None):
+    """tcfg: callable(summary record) -> trace configuration (when the agents are not a..f)"""
     out = os.path.join(ctx.work, name + ".ndjson")
     e = dict(env)
     e["ZZV_OUT"] = out
@@ -304,8 +309,9 @@ def traces(ctx, test, env, name, invs=TRACE_INVS):
                 lines[i] = json.dumps(ev)
                 break
         open(out, "w").write("\n".join(lines) + "\n")
-    v = _validate(ctx, out, name, invs, ())
-    return {"summary": summ[0], "preds": g.of("pred"), "records": g.records, "v": v, "file": out}
+    tc = tcfg(summ[0]) if tcfg else None
+    v = _validate(ctx, out, name, invs, (), tc)
+    return {"summary": summ[0], "preds": g.of("pred"), "records": g.records, "v": v, "file": out, "tcfg": tc}
 
 
 # ---------------------------------------------------------------------------------------------- classification
@@ -408,7 +414,7 @@ def report(ctx, pid, rep=None, trs=(), scale=None):
             ctx.finding("Flood:%s:%s" % (p["kind"], explains_pred(p)), "%s [random schedule %s]" % (p["what"], p.get("setup", p.get("n"))), p)
         v = tr["v"]
         if not v["accepted"]:
-            dev = explain(ctx, tr["file"], "explain")
+            dev = explain(ctx, tr["file"], "explain", tr.get("tcfg"))
             owner = DEV_OWNER.get(dev) if (dev and not SELFTEST) else pid     # an unexplained rejection is reported by whoever sees it
             if owner == pid:
                 n += 1
@@ -431,7 +437,8 @@ def explains_pred(p):
     return {"metric-not-hops": "DevForwardKeepsReceivedMetric", "farther-exit-preferred": "DevForwardKeepsReceivedMetric",
             "not-refreshed": "DevReplayUsesOwnSequence", "stored-beyond-limit": "DevNoHopCheck",
             "forwarded-beyond-limit": "DevNoHopCheck", "path-not-simple": "DevForwardLooped",
-            "undecodable": "DevCount8Wrap", "send-failed": "DevOversizeDropped"}.get(k, "direct")
+            "undecodable": "DevCount8Wrap", "send-failed": "DevOversizeDropped"}.get(k, "direct") if not (
+        k == "stored-beyond-limit" and "distance" in p and not p.get("entry", {}).get("path")) else "DevPathCountWrap"
 
 
 def describe(mm):
